@@ -71,6 +71,12 @@ CHECKS = {
             "1..4 and 50, three schemes) run on two real authorities; TLC replays the trace, compares verdicts at every step (Pass A), the uncached verdict with the "
             "Cert model, and the real LRU list with the model's after every operation (Pass B).",
             "Signature objects are replayed with entry boundaries intact.", "DESIGN.md section 6, C11"),
+    "C12": ("model_checking",
+            "TLA+ Wire module defines the object grammar; TLC enumerates it (spec -> code), the harness round-trips every shape with real keys, TLC compares the projections and checks grammar coverage (line check)",
+            "Every object shape of Wire!Objects x three schemes goes through ToProto/Marshal/Unmarshal/FromProto; hash, bytes-to-sign, participants, acted-on fields and the "
+            "verification verdict at another replica are compared before/after by TLC, which also checks that every shape of the grammar was exercised. Fetch replies go through "
+            "the real RequestBlockQF. TLA+ serves as enumerator and oracle language here (equality), as stated in DESIGN 9.",
+            "protobuf's codec is trusted.", "DESIGN.md section 6, C12"),
     "C13": ("model_checking",
             "TLA+ BlockStore module over block forests (reference ancestry, prune soundness, code-shaped walk/index); TLC state-machine replay of store/get/extends/commit sequences run on the real Blockchain, RequestBlockQF and Committer",
             "Seeded random forests (forks, equal views on different branches, gaps, unobtainable parents) and a structured equivocation-next-to-gap family are driven "
